@@ -56,6 +56,9 @@ type c19Config struct {
 	sizes   []int
 	unnamed bool // first zone has AZ ""
 	rf      int
+	// dups: the configuration lists the first dups endpoints a second time at the end (same address,
+	// same AZ) - nothing rejects that; the listed count is nodes()+dups
+	dups int
 }
 
 func (c c19Config) nodes() int {
@@ -81,6 +84,9 @@ func (c c19Config) String() string {
 		}
 		fmt.Fprintf(&sb, "%q:%d", c.zoneName(i), s)
 	}
+	if c.dups > 0 {
+		return fmt.Sprintf("zones{%s} +%d endpoint(s) listed twice RF=%d", sb.String(), c.dups, c.rf)
+	}
 	return fmt.Sprintf("zones{%s} RF=%d", sb.String(), c.rf)
 }
 
@@ -96,6 +102,9 @@ func (c c19Config) endpoints() []receive.Endpoint {
 			eps = append(eps, receive.Endpoint{Address: "node-" + strconv.Itoa(k) + ":10901", AZ: az})
 			k++
 		}
+	}
+	for d := 0; d < c.dups && d < k; d++ {
+		eps = append(eps, eps[d])
 	}
 	return eps
 }
@@ -144,6 +153,25 @@ func c19Space() []c19Config {
 					out = append(out, c19Config{sizes: comp, rf: rf})
 					if k >= 2 {
 						out = append(out, c19Config{sizes: comp, rf: rf, unnamed: true})
+					}
+				}
+			}
+		}
+	}
+	return out
+}
+
+// c19DupSpace: configurations that list 1..2 endpoints twice (2..6 distinct endpoints in <= 3 zones),
+// RF 1..listed+1. The distinct count is below the listed count, which is what the constructor's
+// "not enough endpoints" guard looks at.
+func c19DupSpace() []c19Config {
+	var out []c19Config
+	for n := 1; n <= 6; n++ {
+		for dups := 1; dups <= 2 && dups <= n; dups++ {
+			for rf := 1; rf <= n+dups+1; rf++ {
+				for k := 1; k <= 3 && k <= n; k++ {
+					for _, comp := range c19Compositions(n, k) {
+						out = append(out, c19Config{sizes: comp, rf: rf, dups: dups})
 					}
 				}
 			}
@@ -341,8 +369,22 @@ func TestVerifC19(t *testing.T) {
 		rec.Violation(t, "%s did not return within %s (wall %.1fs, process CPU %.1fs): construction hangs", what, c19Deadline, wall.Seconds(), cpu.Seconds())
 	}
 
+	// configurations with endpoints listed twice: all of them when n+dups <= 6 (quick) / all (thorough, by shard)
+	for i, c := range c19DupSpace() {
+		if kit.Tier() == "thorough" {
+			if i%shards == shard {
+				todo = append(todo, c)
+			}
+		} else if c.nodes()+c.dups <= 5 || i%7 == int(kit.Seed()%7) {
+			todo = append(todo, c)
+		}
+	}
+
 	for _, c := range todo {
 		feasible := c.rf <= c19MaxRF(c.sizes) || c.rf > c.nodes() // RF > n is refused before the loop
+		if c.dups > 0 {
+			feasible = true // duplicates get their own endpoint index: never part of the (repaired) finding's class
+		}
 		if known && !feasible {
 			rec.Excluded(sigC19)
 			continue
@@ -368,6 +410,12 @@ func TestVerifC19(t *testing.T) {
 		}
 		if c.unnamed {
 			classes = append(classes, "unnamed-zone")
+		}
+		if c.dups > 0 {
+			classes = append(classes, "endpoint-listed-twice")
+			if c.rf > c.nodes() && c.rf <= c.nodes()+c.dups {
+				classes = append(classes, "rf-between-distinct-and-listed-count")
+			}
 		}
 		rec.Case(c.String(), len(c.sizes) >= 2 && c.rf > len(c.sizes) && c.rf <= c.nodes(), classes...)
 	}
